@@ -728,6 +728,27 @@ pub fn pset_byzantine(p: &mut Prng, reference: &[u8]) -> Option<Delivery> {
                 }
             }
         }
+        4 if p.chance(1, 3) => {
+            // declared counts far beyond the 10 000-map cap, singly or together (their sum may wrap)
+            let huge = [10_001u64, 20_000, 1 << 32, 1 << 63, u64::MAX, u64::MAX - 1, (1 << 63) + 1];
+            let both = p.coin();
+            let mut edits = Vec::new();
+            for t in [0x04u8, 0x05] {
+                if !both && p.coin() && !edits.is_empty() {
+                    continue;
+                }
+                let (s, e) = find(global, t)?;
+                let v = *p.pick(&huge);
+                let vb = medium::varint_bytes(v);
+                let mut pair = vec![1u8, t, vb.len() as u8];
+                pair.extend(vb);
+                edits.push(Edit { label: "byz.count".into(), pos: s, remove: e - s, insert: pair });
+                if !both {
+                    break;
+                }
+            }
+            Some(edits)
+        }
         4 => {
             // declared input or output count off by one
             let t = *p.pick(&[0x04u8, 0x05]);
